@@ -5,6 +5,7 @@ from .. import core, coder, oracle as O, util as U
 from ..observe import run as brun
 
 PID = 'C06'
+_LAST = {}
 SYMS = ['A', 'C', 'G', 'T', 'N', 'a', ' ', 'é', '\n']
 
 
@@ -23,6 +24,8 @@ def dec_case(r, k, G, acc, start, s, L, fast=False, chk=None, T=None, tab=None, 
     mode = 'fast' if fast else 'normal'
     pre = 'C06|%s|%s|' % (mode, 'check' if chk is not None else 'nocheck')
     case = None
+    _LAST['case'] = {'k': k, 'accessor': G if len(G) <= 16 else 'order-%d graph' % k, 'start': start, 'string': s if len(s) <= 60 else s[:57] + '...', 'bit_length': L,
+                     'mode': mode, 'check': chk, 'table': T is not None, 'expected': 'array of %d bits' % L if accept else 'ValueError'}
     if accept:
         ok = False
         if st == 'ok':
@@ -232,7 +235,7 @@ def _w_g1(args):
                         brute=(4 if quick else 6) if nr <= 2 else 0)
             r.ctr['classes'] += 1
             r.out.add((wf, nr, fast_ok))
-    r.sample({'k': 1, 'arc_code': '0x%04x' % (hi - 1), 'strings': 'every automaton transition string p(u)+c+tail, c in ACGT N a space é'}, 1)
+    r.sample(_LAST.get('case'), 1)
     return r
 
 
